@@ -97,8 +97,10 @@ def write_evidence(ctx, nviol):
     ev = {"property_id": ctx.pid, "tier": ctx.tier, "seed": ctx.seed, "level": ctx.level,
           "coverage": ctx.cov, "assumptions": ctx.assumptions, "wall_s": round(time.time() - ctx.t0, 2),
           "violations": nviol}
-    os.makedirs(os.path.join(VERIF, "evidence"), exist_ok=True)
-    with open(os.path.join(VERIF, "evidence", ctx.pid + ".json"), "w") as f:
+    # evidence/ describes runs against /repo itself; runs against a scratch tree (VERIF_REPO) go elsewhere
+    edir = os.path.join(VERIF, "evidence") if build.REPO == "/repo" else os.path.join(VERIF, ".cache", "evidence-scratch")
+    os.makedirs(edir, exist_ok=True)
+    with open(os.path.join(edir, ctx.pid + ".json"), "w") as f:
         json.dump(ev, f, indent=1, default=str)
 
 
